@@ -76,7 +76,8 @@ def cmd_run(args):
         procs = []
         for k in range(nshards):
             out = os.path.join(work, f"shard{k}.json")
-            env = dict(os.environ, VK_SHARD=str(k), VERIF_SEED=str(seed), PYTHONHASHSEED="0")
+            env = dict(os.environ, VK_SHARD=str(k), VK_NSHARDS=str(nshards), VERIF_SEED=str(seed),
+                       PYTHONHASHSEED="0")
             cmd = [sys.executable, "-m", "vk", "run", "--property", prop, "--tier", tier,
                    "--shard", str(k), "--nshards", str(nshards), "--out", out]
             if args.only:
